@@ -748,7 +748,7 @@ COMPONENTS = {
     'stub': ['token reader subclass that only counts ticks (deterministic step budget)'],
 }
 TIERS = {
-    'quick': {'runs': 3000, 'wall_cap': 300},
+    'quick': {'runs': 2600, 'wall_cap': 300},
     'thorough': {'runs': 45000, 'wall_cap': 3600},
 }
 EXPECTED_PROBES = ['math-lists-changed-while-in-math-mode', 'derive-without-effective-change',
